@@ -10,6 +10,8 @@ NEEDS = {
  "C03f": "file created with InitMetaArea == 1, the first data page is live, a later commit needs meta pages",
  "C04e": "a transaction that frees data pages (or releases meta pages) whose Commit fails with a write or sync error after the header write was scheduled; later allocations on the still open file",
  "C04f": "bounded file whose last pages were taken by meta-area growth from the end of the file, then a completely full data area, then a transaction with EnableOverflowArea that needs a meta page",
+ "C05e": "bounded file runs full so that a flush needs two or more new pages while only some are free (file-full, no I/O fault); the consumer ACKs; the flush is retried",
+ "C05f": "an I/O error (failing write or sync) during the commit of a queue flush, after which the producer retries Flush or keeps writing",
  "C06e": "bounded, almost full queue file with recycled pages; a flush needing two or more new pages fails with file-full partway through its allocations; consumer ACKs, producer retries; file fills again; restart",
  "C06f": "flush A leaves page P partly filled, flush B appends to P (P gets a write-ahead mapping), an ACK frees P while fewer than three pages are mapped, a later flush re-uses P, the page is read",
  "C07e": "bounded file with a full data area; a write transaction with EnableOverflowArea whose meta area grows into the overflow area inside that transaction; then Rollback, Close or failed Commit",
@@ -22,6 +24,8 @@ NEEDS = {
  "C10f": "non-empty data free list; a write transaction whose meta-area growth is served from the data free list is rolled back or fails; any reopen point before the next allocator-updating commit",
  "C11e": "a free region of exactly 255 pages in a free list at commit time, followed by close/reopen",
  "C11f": "a commit in which the meta area must grow while the file is at its max size and the free data space is fragmented (no contiguous run), so single regions are moved to the meta area",
+ "C12e": "producer and consumer in separate goroutines; a writer flush transaction is open at the moment the ACK switches from its read to its write transaction (lock-order inversion)",
+ "C12f": "the queue occupies the very last page of a bounded file whose MaxSize is a multiple of the page size (data area used to the end), then that page is read",
  "C13e": "the consumer's read transaction is open and has touched the tail event page; a producer flush into that page becomes durable and waits for the consumer; the consumer reads on in the same transaction",
  "C13f": "several flushes in a row append to the same tail page while the consumer's read transaction is open during a flush whose tail page has an overwrite page and the queue header has none",
  "C14e": "bounded file whose meta area spilled into the overflow area; reopen with FlagUpdMaxSize and MaxSize 0 (unbounded); then allocations from the end of the file",
